@@ -523,7 +523,7 @@ def run_profile(profile, seed, tier, opts=None, flavor="dev-hooks", modes=7, sca
     key = run_key(profile, seed, tier, json.dumps(opts, sort_keys=True) + flavor + str(modes) + str(scale))
     rundir = os.path.join(build.WORK, "runs", key)
     sump = os.path.join(rundir, "summary.json")
-    if os.path.exists(sump) and not force:
+    if os.path.exists(sump) and not force and not os.environ.get("VERIF_NOCACHE"):
         with open(sump) as f:
             s = json.load(f)
         s["cached"] = True
@@ -659,6 +659,13 @@ def run_profile(profile, seed, tier, opts=None, flavor="dev-hooks", modes=7, sca
             except Exception as e:  # the sample is extra evidence; its absence is reported as "not observed"
                 with open(os.path.join(rundir, name + ".ind.err"), "w") as f:
                     f.write(repr(e))
+        if os.environ.get("VF_KEEP_BINS"):
+            try:
+                os.makedirs(os.environ["VF_KEEP_BINS"], exist_ok=True)
+                if sum(1 for x in os.listdir(os.environ["VF_KEEP_BINS"]) if x.startswith(os.path.basename(rundir))) < 2:
+                    shutil.copy(bins[name], os.path.join(os.environ["VF_KEEP_BINS"], os.path.basename(rundir) + "_" + name))
+            except OSError:
+                pass
         os.remove(bins[name])
         return cr, to, n
 
